@@ -274,6 +274,8 @@ def main():
                 record(next(gen))
             except StopIteration:
                 break
+        if len(consume) > 2:
+            time.sleep(consume[2])      # the consumer is busy for a while (the worker sits idle) before it abandons the run
         try:
             gen.close()
         except BaseException as ex:     # the generator did not unwind (implementation behaviour, reported by the oracles)
